@@ -59,6 +59,10 @@ CHECKS = {
             "TLC checks Unmerge(Merge(t)) = t and injectivity for every tuple over an alphabet containing the separator and the escape character, and finds colliding twins under the wrong merges; _merge_columns replayed on every tuple; twin tables pushed through moments, MetricFrame, EG, GridSearch, ThresholdOptimizer",
             "property tier: _merge_columns is collision-free on every enumerated tuple and the partition it induces equals the tuple partition (= MetricFrame's non-empty intersectional groups); moments / EG / GridSearch / ThresholdOptimizer (fit and predict-time lookup on permuted subsets) behave exactly as with canonical group ids. Refinement tier: exact merged string == Merge.tla",
             "strings up to length 2 (2 columns) / 1 (3 columns) in quick, longer in thorough; values compared as strings", "5/C13"),
+    "C12": (["Present.tla", "Frame.tla"],
+            "TLC enumerates the product of presentations (container kind x index-label scheme per argument, Present.tla) with the positional meaning and the wrong label-aligned meaning (discriminating flag); each presentation is applied to TLC-simulated 8-row datasets and run through MetricFrame, fairness metrics, moments, EG, GridSearch, ThresholdOptimizer against the canonical run",
+            "results must be identical to the all-list run (1e-12 for metrics, exact for estimators incl. _pmf_predict / predict with a fixed seed); joint row permutations with surviving original labels and order-reversing group renamings on top; the evidence counts the discriminating presentations replayed (containers whose labels would change the data if aligned on)",
+            "quick samples 1500 of 20736 four-argument and 260 of 1728 three-argument presentations (full product in thorough); X only as ndarray/DataFrame", "5/C12"),
 }
 
 PENDING_REASON = "check under construction in this session (DESIGN.md section 5 describes the planned TLA+ spec and binding); not yet claimed"
